@@ -64,7 +64,7 @@ def mutate (w : World) (id : Nat) (f : Obj → Obj) : World :=
   { w with heap := fun i => if i = id then f (w.heap i) else w.heap i }
 
 /-- `ContextVar.set` in context `c` -/
-def bind (w : World) (c v id : Nat) : World :=
+def bindVar (w : World) (c v id : Nat) : World :=
   { w with ctxs := fun c' v' => if c' = c ∧ v' = v then some id else w.ctxs c' v' }
 
 inductive Res where
@@ -134,7 +134,7 @@ def stepOp (c v : Nat) (a : Args) (f : Frame) : Op → Step
     | none => .ret f.w .stuck
   | .store r =>
     match f.rg r with
-    | some id => .cont { f with w := bind f.w c v id }
+    | some id => .cont { f with w := bindVar f.w c v id }
     | none => .ret f.w .stuck
   | .assumeContains r b =>
     match f.rg r with
